@@ -68,6 +68,10 @@ OTHER_CHECKS = [
      "Entities.tla models the entity tree with one action per public create/delete/use call; TLC enumerates all histories of <= 5 operations over 3 publishers, 2 subscribers, a topic, a writer and a reader, and every transition is replayed through the async API on a participant whose 8-bit publisher/subscriber counters were first advanced to 254, so that the counter wraps inside every replayed history: after every operation all simultaneously existing entities must have distinct instance handles, the call must return (a panic or stall of the worker is a violation) and give the specified result.",
      "5.8, 6 C35", GRAPH_NOTE + " The 16-bit topic/reader/writer counters are not warmed to their wrap (65 536 creations per replay is too slow); RTPS GUIDs are not compared separately (the handle of these entities is their GUID).",
      "explicit TLA+ spec + TLC; every transition replayed through the public API in the deterministic simulation after counter warm-up"),
+    ("C14", "model_checking",
+     "TimeConv.tla defines the wire conversion (fraction = ceil(ns*2^32/10^9) by long division on 16-bit limbs, back by Horner's rule, so that TLC's 32-bit integers suffice) and the saturating Add / Sub / New on normalized (sec, ns) values; TLC evaluates them on 31 413 boundary and sampled cases, checks RoundTrip, Normalized and Monotone on them and prints one CASE line per evaluation; the harness evaluates every conversion path (Duration<->rtps Duration, Duration<->wire Time, Time<->transport Time<->wire Time) and every operator (Time+Duration, Duration+-Duration, Time-Time, +=, ::new) of the code on each case, and sweeps ALL 10^9 nanosecond values through the code comparing with TimeConv!Frac and the round trip. TimeConvA.tla states the same functions on unbounded integers and Apalache proves RoundTripInv for every ns and ArithInv (normalized, monotone in every argument) for all operands of the full range.",
+     "6 C14", "Trusted: TLC, Apalache/z3, the harness' case evaluation (harness/src/timeconv.rs). The limb definition (TLC) and the integer definition (Apalache) are linked through the implementation, not by a proof. Seconds are sampled at boundary values (they are copied by the conversions).",
+     "explicit TLA+ spec; TLC-evaluated cases and an exhaustive nanosecond sweep compared with the code; Apalache proof of the round trip and of monotonicity over the unbounded domain"),
     ("C28", "model_checking",
      "WriterInst.tla: one action per DataWriterAsync call (register_instance, unregister_instance, dispose, write, lookup_instance, enable) on a writer created on a keyed or keyless type, enabled or not yet enabled; the abstract state is the set of registered keys; TLC enumerates all histories of <= 6 calls over 2 keys (39 states, 325 transitions) and every transition is replayed on a real writer inside the deterministic simulation: return code, returned handle (= big-endian key padded to 16 bytes) and, after every step, lookup_instance of every key are compared.",
      "6 C28", GRAPH_NOTE + " max_instances/OutOfResources and the handle argument of write/dispose/unregister are outside the model; lookup_instance on a keyless type is not constrained.",
